@@ -99,6 +99,7 @@ func RunProgram(ctx context.Context, db *sql.DB, p gen.Program, o *Obs) error {
 		pool = conn
 	}
 	var tx *sql.Tx
+	var firstErr error
 	cur := 0
 	endTx := func() error {
 		if tx == nil {
@@ -120,10 +121,12 @@ func RunProgram(ctx context.Context, db *sql.DB, p gen.Program, o *Obs) error {
 	}
 	defer mark()
 	for _, st := range p.Steps {
-		mark()
 		if st.Group != cur {
 			if err := endTx(); err != nil {
-				return err
+				if !p.ContinueOnError {
+					return err
+				}
+				firstErr = err
 			}
 			if st.Group > 0 {
 				var err error
@@ -133,7 +136,16 @@ func RunProgram(ctx context.Context, db *sql.DB, p gen.Program, o *Obs) error {
 					tx, err = db.BeginTx(ctx, nil)
 				}
 				if err != nil {
-					return fmt.Errorf("begin: %w", err)
+					mark()
+					o.Steps = append(o.Steps, StepResult{Err: "begin: " + err.Error()})
+					if !p.ContinueOnError {
+						return fmt.Errorf("begin: %w", err)
+					}
+					if firstErr == nil {
+						firstErr = fmt.Errorf("begin: %w", err)
+					}
+					tx = nil
+					continue
 				}
 				cur = st.Group
 			}
@@ -142,6 +154,7 @@ func RunProgram(ctx context.Context, db *sql.DB, p gen.Program, o *Obs) error {
 		if tx != nil {
 			ex = tx
 		}
+		mark() // the step's journal region starts after the previous local transaction has ended
 		sr := StepResult{}
 		var res sql.Result
 		var err error
@@ -160,14 +173,24 @@ func RunProgram(ctx context.Context, db *sql.DB, p gen.Program, o *Obs) error {
 			if tx != nil {
 				tx.Rollback()
 				tx = nil
+				cur = 0
 			}
-			return fmt.Errorf("step %s: %w", st.Stmt.Name, err)
+			if !p.ContinueOnError {
+				return fmt.Errorf("step %s: %w", st.Stmt.Name, err)
+			}
+			if firstErr == nil {
+				firstErr = fmt.Errorf("step %s: %w", st.Stmt.Name, err)
+			}
+			continue
 		}
 		sr.Affected, _ = res.RowsAffected()
 		sr.LastID, _ = res.LastInsertId()
 		o.Steps = append(o.Steps, sr)
 	}
-	return endTx()
+	if err := endTx(); err != nil {
+		return err
+	}
+	return firstErr
 }
 
 // RunGlobal runs p inside tm.WithGlobalTx; outcome "rollback" makes the business fail after the last
